@@ -378,6 +378,11 @@ def generate(prop, seed, tier):
         scen["roles"] = S.perm(nf)  # function j sits under template parameter roles[j]
         scen["dict_order"] = S.perm(nf)
         scen["stub_fixed_first"] = S.chance(0.5)
+        roots = [j for j in range(nf) if not funcs[j]["conds"] and any(j in f["conds"] for f in funcs)]
+        if roots and S.chance(0.3):
+            # a function used by the conditional distribution's functions that is not one of them: the caller
+            # fits it himself before he fits the conditional distribution
+            scen["external"] = [S.pick(roots)]
     return scen
 
 
@@ -479,6 +484,16 @@ def _stub_template(n, fixed_first=False):
 # --------------------------------------------------------------------------
 # oracles
 # --------------------------------------------------------------------------
+
+
+def _cond_layout(scen):
+    """functions carried by the ConditionalDistribution (the others - 'external' ones, used by functions
+    inside - are fitted directly by the caller before) and their position among the stub's parameters"""
+    nf = len(scen["funcs"])
+    ext = set(scen.get("external") or ())
+    internal = [j for j in range(nf) if j not in ext]
+    order = sorted(internal, key=lambda j: scen["roles"][j])
+    return internal, {j: order.index(j) for j in internal}
 
 
 def params_of(objs):
@@ -854,11 +869,12 @@ def execute(prop, scen):
         if scen["mode"] == "cond":
             from virocon.distributions import ConditionalDistribution
 
-            tmpl, names = _stub_template(nf, bool(scen.get("stub_fixed_first")))
-            roles = scen["roles"]
+            internal, pos = _cond_layout(scen)
+            tmpl, names = _stub_template(len(internal), bool(scen.get("stub_fixed_first")))
             pdict = {}
             for j in scen["dict_order"]:
-                pdict[names[roles[j]]] = objs[j]
+                if j in pos:
+                    pdict[names[pos[j]]] = objs[j]
             cond = ConditionalDistribution(tmpl, pdict)
         run.event("build", [scen["dag"], scen["mode"]], params_of(objs))
         dirty = False
@@ -871,10 +887,20 @@ def execute(prop, scen):
 
                 if cond is not None:
                     cond = _copy.deepcopy(cond)
-                    objs_by_name = {names[scen["roles"][j]]: j for j in range(nf)}
+                    objs_by_name = {names[pos[j]]: j for j in internal}
+                    old_objs = objs
                     objs = [None] * nf
                     for nm, dep in cond.conditional_parameters.items():
                         objs[objs_by_name[nm]] = dep
+                    for j in range(nf):
+                        if objs[j] is None:
+                            # an external function: the copy inside the copied structure
+                            for k_ in internal:
+                                for key_, cj in zip(SHAPES[scen["funcs"][k_]["shape"]][2], scen["funcs"][k_]["conds"]):
+                                    if cj == j:
+                                        objs[j] = objs[k_].dependent_parameters[key_]
+                            if objs[j] is None:
+                                objs[j] = old_objs[j]
                 else:
                     objs = list(_copy.deepcopy(tuple(objs)))
                 run.count("probe:continued-on-deep-copy")
@@ -898,12 +924,15 @@ def execute(prop, scen):
             with seams.OptimiserShim(fail_at=[fail_at] if fail_at is not None else None) as shim:
                 try:
                     if cond is not None:
-                        roles = scen["roles"]
+                        for j in range(nf):
+                            if j not in pos:
+                                objs[j].fit(x, ys[j])  # the caller fits his auxiliary function himself, first
+                                run.count("probe:conditioner-fitted-outside-the-conditional-distribution")
                         data = []
                         for i in range(len(x)):
-                            row = [0.0] * nf
-                            for j in range(nf):
-                                row[roles[j]] = ys[j][i]
+                            row = [0.0] * len(internal)
+                            for j in internal:
+                                row[pos[j]] = ys[j][i]
                             data.append(np.array(row))
                         cond.fit(data, list(x), [(v - 0.25, v + 0.25) for v in x], "mle", None)
                         called = set(range(nf))
@@ -1036,13 +1065,14 @@ def shrink_candidates(prop, scen):
                 r["fail_at"] = min(r["fail_at"], len(c["funcs"]))
         c["dag"] = scen["dag"]
         if "roles" in c:
-            c.pop("roles"); c.pop("dict_order"); c["mode"] = "direct"
+            c.pop("roles"); c.pop("dict_order"); c.pop("external", None); c["mode"] = "direct"
         yield c
     if scen["mode"] == "cond":
         c = copy.deepcopy(scen)
         c["mode"] = "direct"
         c.pop("roles", None)
         c.pop("dict_order", None)
+        c.pop("external", None)
         yield c
 
 
